@@ -350,7 +350,7 @@ def check_filter_step(pva, w_rel, acc_n, with_altitude, T, dt_imu=0.02):
     M = A + Nb
     E2 = expm(M * T) - np.eye(ns) - M * T
     floor = 100 * (n + 1) * eps[:, None] / hs[None, :]
-    tol = 3 * (E2 + Nb * T + 2 * curvF + np.abs(F1 - F0) * T / 2 +
+    tol = 4 * (E2 + Nb * T + 2 * curvF + np.abs(F1 - F0) * T / 2 +
                (np.abs(F1 - F0) @ M + M @ np.abs(F1 - F0)) * T * T) \
         + floor + 1e-6 * np.abs(PhiM)
     if not with_altitude:
@@ -362,7 +362,7 @@ def check_filter_step(pva, w_rel, acc_n, with_altitude, T, dt_imu=0.02):
             v = np.array([p.VN, p.VE, 0.0])
             return float(np.cross(2 * earth.rate_n(p.lat) + earth.curvature_matrix(p.lat, p.alt) @ v, v)[2])
         dev = abs(cv(traj.iloc[-1]) - cv(traj.iloc[0]))
-        tol[2:4, 4:7] += 3 * dev * T
+        tol[2:4, 4:7] += 4 * dev * T
     fails = []
     d = np.abs(Phi - PhiM)
     rat = float((d / tol).max())
@@ -377,7 +377,7 @@ def check_filter_step(pva, w_rel, acc_n, with_altitude, T, dt_imu=0.02):
     E1 = expm(M * T) - np.eye(ns)
     wn = float(np.linalg.norm(w)) + 1e-3
     an = float(np.linalg.norm(acc_n)) + 1.0
-    tolS = 3 * (E1 @ Bm * T / 2 + Nb @ Bm * T * T + 2 * curvB + dBm * T / 2 + M @ dBm * T * T +
+    tolS = 4 * (E1 @ Bm * T / 2 + Nb @ Bm * T * T + 2 * curvB + dBm * T / 2 + M @ dBm * T * T +
                 T * (wn * T) ** 2 * (Bm @ MIX) / 8 + T * (wn * T) * (an * T) * (DVG if with_altitude else _t23() @ DVG) / 4) + \
         100 * (n + 1) * eps[:, None] / H_SENS[None, :] + 1e-6 * np.abs(SM)
     dS = np.abs(S - SM)
